@@ -52,7 +52,7 @@ def race_cli(text, timeout_s, wait_all=False):
                     ans = lines[0] if lines and lines[0] in ('sat', 'unsat', 'unknown') else 'unknown'
                     out[n] = (ans, time.time() - t0)
                     del procs[n]
-                    if ans == 'unsat' and not wait_all:
+                    if ans in ('unsat', 'sat') and not wait_all:
                         raise StopIteration
             time.sleep(0.01)
     except StopIteration:
@@ -107,11 +107,19 @@ def check(hyps, goal, timeout_ms=10000, want_model=True, second=False, first_ms=
         if unsat_by and not sat_by:
             res.update(result='unsat', backend=unsat_by[0])
             r = z3.unsat
+        elif sat_by and not unsat_by:
+            # a counter-model exists (complete query, sound solver); a model is still requested from the in-process solver below
+            res.update(result='sat', backend=sat_by[0])
         res['second'] = sec
     if r == z3.unknown or second:
         # stage 2: z3 5.1.0 in process with the definitions: the only source of models
         r2, model = inproc(timeout_ms)
-        if r == z3.unknown:
+        if r == z3.unknown and res['result'] == 'sat':
+            if str(r2) == 'sat':
+                res.update(model=model)
+            elif str(r2) == 'unsat':
+                res['disagreement'] = True
+        elif r == z3.unknown:
             res.update(result=str(r2), model=model, backend=bk)
         elif str(r2) == 'sat':
             res['disagreement'] = True
